@@ -511,6 +511,8 @@ func checkC03(rep *core.Report) {
 	checkBothFieldLists(prog, r7, "ipfix")
 	r8 := rep.Rule("R03.8", "the built-in information model is keyed once per element, by the element's own id", 1)
 	checkModelKeys(rep, r8)
+	r9 := rep.Rule("R03.9", "the byte reader serves a request for zero octets (empty variable-length values, zero-length elements)", 2)
+	checkReaderAcceptsZero(prog, r9)
 	checkLayoutSeq(prog, r1, "ipfix", "MessageHeader", []specField{{"Version", 2}, {"Length", 2}, {"ExportTime", 4}, {"SequenceNo", 4}, {"DomainID", 4}}, "IPFIX message header (RFC 7011 3.1)")
 	checkLayoutSeq(prog, r1, "ipfix", "SetHeader", []specField{{"SetID", 2}, {"Length", 2}}, "IPFIX set header (RFC 7011 3.3.2)")
 	for _, f := range findFillers(prog, "ipfix", "TemplateHeader") {
@@ -636,6 +638,8 @@ func checkC06(rep *core.Report) {
 	checkBothFieldLists(prog, r7, "netflow/v9")
 	r8 := rep.Rule("R06.7", "the built-in information model is keyed once per element, by the element's own id", 1)
 	checkModelKeys(rep, r8)
+	r9 := rep.Rule("R06.8", "the byte reader serves a request for zero octets (zero-length elements)", 2)
+	checkReaderAcceptsZero(prog, r9)
 	checkLayoutSeq(prog, r1, "netflow/v9", "PacketHeader", []specField{{"Version", 2}, {"Count", 2}, {"SysUpTime", 4}, {"UNIXSecs", 4}, {"SeqNum", 4}, {"SrcID", 4}}, "NetFlow v9 packet header (RFC 3954 5.1)")
 	checkLayoutSeq(prog, r1, "netflow/v9", "SetHeader", []specField{{"FlowSetID", 2}, {"Length", 2}}, "flowset header")
 	checkLayoutSeq(prog, r1, "netflow/v9", "TemplateFieldSpecifier", []specField{{"ElementID", 2}, {"Length", 2}}, "field specifier (type, length)")
@@ -880,5 +884,56 @@ func checkBothFieldLists(prog *core.Program, rr *core.RuleRun, rel string) {
 	}
 	if n == 0 {
 		rr.Undecided(rel+":both-field-lists", token.NoPos, "no function reads a template's specifier lists")
+	}
+}
+
+// checkReaderAcceptsZero (R03.9 / R06.8): a variable-length field may be empty (length prefix 0) and a template may
+// give an element the length 0; both reach the byte reader as a read of zero octets, which must succeed. For every
+// method of the reader that takes an octet count, the control flow is folded for n = 0 (comparisons of n with
+// constants and with a length, which is never negative): no return with a non-nil error may remain reachable.
+func checkReaderAcceptsZero(prog *core.Program, rr *core.RuleRun) {
+	n := 0
+	for _, fn := range prog.RepoFuncs() {
+		if core.PkgRel(fn) != "reader" || fn.Signature.Recv() == nil || fn.Synthetic != "" || len(fn.Params) != 2 {
+			continue
+		}
+		bt, ok := fn.Params[1].Type().Underlying().(*types.Basic)
+		if !ok || bt.Info()&types.IsInteger == 0 {
+			continue
+		}
+		res := fn.Signature.Results()
+		if res.Len() == 0 || !types.Identical(res.At(res.Len()-1).Type(), types.Universe.Lookup("error").Type()) {
+			continue
+		}
+		n++
+		param := fn.Params[1]
+		fold := foldedEdges(func(v ssa.Value) bool { return v == ssa.Value(param) }, 0)
+		seen := map[*ssa.BasicBlock]bool{}
+		stack := []*ssa.BasicBlock{fn.Blocks[0]}
+		bad := token.NoPos
+		for len(stack) > 0 {
+			b := stack[len(stack)-1]
+			stack = stack[:len(stack)-1]
+			if seen[b] {
+				continue
+			}
+			seen[b] = true
+			if r, ok := b.Instrs[len(b.Instrs)-1].(*ssa.Return); ok && len(r.Results) > 0 {
+				ev := r.Results[len(r.Results)-1]
+				if c, isC := ev.(*ssa.Const); !isC || !c.IsNil() {
+					bad = r.Pos()
+				}
+			}
+			for si, s := range b.Succs {
+				if fold(b, si) {
+					stack = append(stack, s)
+				}
+			}
+		}
+		rr.Check(bad == token.NoPos, core.FuncName(fn)+":accepts-zero", fn.Pos(), "a request for 0 octets cannot fail",
+			"a request for 0 octets can return an error ("+prog.Pos(bad)+"): an empty variable-length value or a zero-length element, both well-formed, makes the reader fail, which the decoders treat as a truncated datagram and drop the whole message")
+	}
+	if n == 0 {
+		rr.Undecided("reader:accepts-zero", token.NoPos, "no reader method taking an octet count found")
 	}
 }
